@@ -38,6 +38,45 @@ type c16Scn struct {
 	Binary    bool   `json:"binary"`
 	Early     bool   `json:"early"`
 	Hung      bool   `json:"hung"`
+	Nego      bool   `json:"nego"`
+}
+
+// negoConn is the far end of a telnet session that opens with option negotiation: the opening goes out before any data,
+// and the client's three-byte answers are taken out of what the far end reads (they are protocol, not data).
+type negoConn struct {
+	net.Conn
+	st   int
+	Seen []byte
+}
+
+var negoOpening = []byte{0xff, 0xfd, 0x18, 0xff, 0xfd, 0x1f, 0xff, 0xfb, 0x01, 0xff, 0xfb, 0x03, 0xff, 0xfd, 0x03, 0xff, 0xfe, 0x22}
+
+func (c *negoConn) Read(b []byte) (int, error) {
+	for {
+		n, err := c.Conn.Read(b)
+		k := 0
+
+		for _, x := range b[:n] {
+			switch {
+			case c.st == 0 && x == 0xff:
+				c.st = 1
+				c.Seen = append(c.Seen, x)
+			case c.st == 1:
+				c.st = 2
+				c.Seen = append(c.Seen, x)
+			case c.st == 2:
+				c.st = 0
+				c.Seen = append(c.Seen, x)
+			default:
+				b[k] = x
+				k++
+			}
+		}
+
+		if k > 0 || err != nil {
+			return k, err
+		}
+	}
 }
 
 const c16Alpha = "abcdefghijklmnopqrstuvwxyzABCDEFGHIJKLMNOPQRSTUVWXYZ012345678"
@@ -128,7 +167,7 @@ type peer struct {
 	close    func()
 }
 
-func startPeer(kind string) (*peer, error) {
+func startPeer(kind string, nego ...bool) (*peer, error) {
 	p := &peer{sessions: make(chan io.ReadWriteCloser, 4)}
 
 	if kind == "telnet" {
@@ -151,6 +190,14 @@ func startPeer(kind string) (*peer, error) {
 				mu.Lock()
 				conns = append(conns, c)
 				mu.Unlock()
+
+				if len(nego) > 0 && nego[0] {
+					_, _ = c.Write(negoOpening)
+					p.sessions <- &negoConn{Conn: c}
+
+					continue
+				}
+
 				p.sessions <- c
 			}
 		}()
@@ -194,7 +241,7 @@ func c16Transport(s *c16Scn, port int, keyPath string) (*transport.Transport, er
 }
 
 func c16Run(s *c16Scn, enc *json.Encoder, mu *sync.Mutex) verdict {
-	name := fmt.Sprintf("%s/%s/rs=%d/s2c=%d/c2s=%d/chunk=%d/long=%v", s.Transport, s.Mode, s.ReadSize, s.S2C, s.C2S, s.Chunk, s.LongLine)
+	name := fmt.Sprintf("%s/%s/rs=%d/s2c=%d/c2s=%d/chunk=%d/long=%v/nego=%v", s.Transport, s.Mode, s.ReadSize, s.S2C, s.C2S, s.Chunk, s.LongLine, s.Nego)
 	v := verdict{ID: s.ID, Variant: name, OK: true, Nontrivial: true}
 	rec := &segRec{got: map[string]int{}, long: s.LongLine, binary: s.Binary}
 	rec.add(map[string]interface{}{"ev": "reset", "t": s.ID, "transport": s.Transport, "mode": s.Mode, "name": name})
@@ -212,7 +259,7 @@ func c16Run(s *c16Scn, enc *json.Encoder, mu *sync.Mutex) verdict {
 	var drop, closeAll, stall func()
 
 	if s.Transport == "telnet" {
-		p, err := startPeer("telnet")
+		p, err := startPeer("telnet", s.Nego && !s.Binary)
 		if err != nil {
 			fail(&v, "C16:harness:peer", "%v", err)
 
